@@ -15,7 +15,7 @@ _CORE_ASSUME = ["TLC and the community modules are correct",
                 "the harness projection (frame table, payload-id table, file-byte parser) and the concretisation of abstract payloads are trusted",
                 "histories are crash-free except for `abandon` (handle lost between two calls)",
                 "small-scope hypothesis for the exhaustive part (<= 3 frames, <= 5..7 calls, 8-unit log)"]
-for _p in ("C01", "C06", "C07", "C08", "C14", "C15", "C18", "C19", "C21", "C24", "C25", "C42"):
+for _p in ("C01", "C06", "C07", "C08", "C14", "C15", "C18", "C19", "C21", "C24", "C25", "C26", "C27", "C42"):
     CHECKS[_p] = ("eng_core", "model_checking", _CORE_ASSUME)
 
 
